@@ -7,6 +7,7 @@ import json, os, re, subprocess, sys, time
 
 VERIF = os.path.dirname(os.path.dirname(os.path.abspath(__file__)))
 SEEDED = os.path.join(VERIF, "seeded")
+REPO = os.environ.get("VERIF_REPO", "/repo")     # a scratch worktree when run under `vp run --with-repo`
 
 
 def sh(cmd, **kw):
@@ -31,14 +32,14 @@ def section(path, title_re):
 
 def main():
     ids = sys.argv[1:] or sorted(d for d in os.listdir(SEEDED) if os.path.isdir(os.path.join(SEEDED, d)))
-    if sh("git -C /repo diff --quiet").returncode != 0:
-        print("/repo has uncommitted changes"); return 2
+    if sh("git -C %s diff --quiet" % REPO).returncode != 0:
+        print(REPO + " has uncommitted changes"); return 2
     rows = []
     for sid in ids:
         d = os.path.join(SEEDED, sid)
         prop = sid.split("-")[0]
         patch = os.path.join(d, "patch.diff")
-        r = sh("git -C /repo apply %s" % patch)
+        r = sh("git -C %s apply %s" % (REPO, patch))
         if r.returncode != 0:
             rows.append((sid, prop, "patch does not apply to the current tree", "")); continue
         t0 = time.time()
@@ -46,7 +47,7 @@ def main():
             c = sh("cd %s && ./check %s --tier quick" % (VERIF, prop), timeout=3600)
             out = c.stdout; rc = c.returncode
         finally:
-            sh("git -C /repo checkout -- .")
+            sh("git -C %s checkout -- ." % REPO)
         viol = [l for l in out.splitlines() if l.startswith("VIOLATION")]
         why = [l[2:] for l in out.splitlines() if l.startswith("# ")]
         with_input = [v for v in viol if "no-failing-input-found" not in v]
@@ -66,9 +67,20 @@ def main():
         rows.append((sid, prop, "caught (%d with failing input)" % len(with_input) if caught else "NOT CAUGHT", what[:160]))
         print(sid, rows[-1][2], flush=True)
     sh("cd %s && python3 tools/cvbuild.py lib harness" % VERIF)
+    allrows = []
+    for sid in sorted(d for d in os.listdir(SEEDED) if os.path.isdir(os.path.join(SEEDED, d))):
+        mp = os.path.join(SEEDED, sid, "meta.json")
+        if not os.path.exists(mp):
+            continue
+        cb = json.load(open(mp)).get("caught_by", "")
+        m = re.search(r"(\d+) VIOLATION line\(s\), (\d+) with a concrete failing input; first: (.*)", cb, re.S)
+        if m:
+            allrows.append((sid, sid.split("-")[0], "caught (%s with failing input)" % m.group(2), m.group(3)[:160].replace("\n", " ")))
+        else:
+            allrows.append((sid, sid.split("-")[0], cb[:60] or "not run", ""))
     with open(os.path.join(SEEDED, "RESULTS.md"), "w") as f:
-        f.write("# Seeded changes against the checks (written by tools/run_seeded.py)\n\n| change | property | quick check | first report |\n|---|---|---|---|\n")
-        for r in rows:
+        f.write("# Seeded changes against the checks (written by tools/run_seeded.py from every seeded/<id>/meta.json)\n\n| change | property | quick check | first report |\n|---|---|---|---|\n")
+        for r in allrows:
             f.write("| %s | %s | %s | %s |\n" % (r[0], r[1], r[2], r[3].replace("|", "/")))
     return 0
 
